@@ -18,7 +18,7 @@ CHECKS = {
     "C18": {"level": E, "units": [go("TestC18Samples", 1, 1, netns=False, shards={"quick": 1, "thorough": 1}), go("TestC18", 400000, 6000000, netns=False)]},
     "C19": {"level": E, "units": [go("TestC19", 48000, 3000000)]},
     "C03": {"level": E, "agent_binary": True, "units": [go("TestC03", 2000, 60000), go("TestC03Restart", 192, 6000)]},
-    "C09": {"level": E, "units": [go("TestC09", 4000, 120000)]},
+    "C09": {"level": E, "units": [go("TestC09", 4000, 120000), go("TestC09UP4", 1600, 40000)]},
     "C08": {"level": E, "units": [go("TestC08Parser", 200000, 8000000, netns=False), go("TestC08PDR", 4000, 100000), go("TestC08PFD", 1500, 40000)]},
     "C14": {"level": E, "units": [go("TestC14", 3200, 60000)]},
     "C13": {"level": E, "units": [go("TestC13", 1200, 20000), go("TestC13Unit", 640, 6000, netns=False)]},
